@@ -179,7 +179,7 @@ def check(case):
         zf = mf.sources[k].impedance
         k += 1 if img is None else 2
         want = zf / 2 if img is None else zf
-        if abs(ms.impedance - want) > tol * abs(want):
+        if abs(ms.impedance - want) > tol * common.port_amp(mg, ms) * abs(want):
             kind = 'ground-pulse-feed' if img is None else 'feed'
             fails.append(('impedance:' + kind, 'over ground %r, free-space pair gives %r (cond %.3g)' % (ms.impedance, want, c)))
             break
@@ -198,6 +198,12 @@ def check(case):
         gg, gf = np.array(mg.far_field.gain), np.array(mf.far_field.gain)
         msk = gg > gg[..., 2].max() - 40
         d = np.abs(gg - gf - 3.0103)[msk]
-        if d.size and d.max() > 0.01 * tol / 5e-4:
+        if d.size and d.max() > common.gain_tol_db((mg, mf), tol):
             fails.append(('gain', 'gain over ground minus gain of the free-space pair differs from 3.0103 dB by %.3g dB' % d.max()))
+        # the field itself (same voltages): over ground it equals the field of the pair in the upper half space
+        eg = np.hypot(np.abs(np.array(mg.far_field.e_theta)), np.abs(np.array(mg.far_field.e_phi)))
+        ef = np.hypot(np.abs(np.array(mf.far_field.e_theta)), np.abs(np.array(mf.far_field.e_phi)))
+        de = np.abs(eg - ef).max() / max(eg.max(), 1e-300)
+        if de > 2 * tol:
+            fails.append(('field', '|E| r over ground differs from that of the free-space pair by %.3g of the largest value (tol %.2g)' % (de, 2 * tol)))
     return Result(fails=fails, nontrivial=nt, labels=sorted(set(labels)))
